@@ -441,6 +441,21 @@ GROUPS = {
              "  rcases hlf with rfl | ⟨k, rfl⟩ <;> cases ho : w.outcome <;> wrap_eval"),
         ],
     },
+    "logscope": {
+        "import": "Haiway.Bridge.LogScope", "open": "Haiway.MiniPy Haiway.Bridge.LogScope",
+        "defs": {
+            "gMetricsScope": Target("src/haiway/context/metrics.py", "MetricsContext", "scope", ["name", "trace_id", "logger", "completion"], {},
+                                    {("cls._context", "get"): (102, [])},
+                                    ext_functions={"ScopeMetrics": (260, ["@trace_id", "@scope", "@logger", "@parent", "@completion"]),
+                                                   "cls": (263, ["@0"])},
+                                    obj_attrs={"trace_id": 261, "_logger": 262}),
+        },
+        "obligations": [
+            ("scope_inherits", ["gMetricsScope"], "ScopeInherits gMetricsScope",
+             "intro name traceId logger completion w hb hw\n  unfold gMetricsScope\n"
+             "  cases hv : w.var <;> by_cases ht : traceId.truthy = true <;> by_cases hl : logger.truthy = true <;> logscope_eval"),
+        ],
+    },
     "completion": {
         "import": "Haiway.Bridge.Completion", "open": "Haiway.MiniPy Haiway.Bridge.Completion",
         "defs": {
